@@ -338,3 +338,94 @@ pub fn rr(name: &str, rdata: RefRData) -> RefRR {
 pub fn typed(code: u16, vals: Vec<Val>) -> RefRData {
     RefRData::Typed { code, vals }
 }
+
+/// Field-level difference between two packet descriptions: (component tag, human detail).
+/// The tag is stable (section, component, type mnemonic, field name) and serves as signature.
+pub fn diff(exp: &RefPacket, got: &RefPacket) -> Vec<(String, String)> {
+    let mut out = Vec::new();
+    let mut add = |tag: String, d: String| out.push((tag, d));
+    if exp.id != got.id {
+        add("header.id".into(), format!("id {} vs {}", exp.id, got.id));
+    }
+    if exp.flags != got.flags {
+        add("header.flags".into(), format!("flags {:#06x} vs {:#06x}", exp.flags, got.flags));
+    }
+    if exp.opcode != got.opcode {
+        add("header.opcode".into(), format!("opcode {} vs {}", exp.opcode, got.opcode));
+    }
+    if exp.rcode != got.rcode {
+        add("header.rcode".into(), format!("rcode {} vs {}", exp.rcode, got.rcode));
+    }
+    match (&exp.opt, &got.opt) {
+        (None, None) => {}
+        (Some(a), Some(b)) => {
+            if a.udp != b.udp {
+                add("opt.udp".into(), format!("udp size {} vs {}", a.udp, b.udp));
+            }
+            if a.version != b.version {
+                add("opt.version".into(), format!("version {} vs {}", a.version, b.version));
+            }
+            if a.options != b.options {
+                add("opt.options".into(), format!("options {:?} vs {:?}", a.options, b.options));
+            }
+        }
+        (a, b) => add("opt.presence".into(), format!("opt {:?} vs {:?}", a.is_some(), b.is_some())),
+    }
+    if exp.questions.len() != got.questions.len() {
+        add("questions.count".into(), format!("{} vs {} questions", exp.questions.len(), got.questions.len()));
+    }
+    for (i, (a, b)) in exp.questions.iter().zip(got.questions.iter()).enumerate() {
+        if a.name != b.name {
+            add("questions.name".into(), format!("question {} name {:?} vs {:?}", i, a.name, b.name));
+        }
+        if a.qtype != b.qtype {
+            add("questions.qtype".into(), format!("question {} qtype {} vs {}", i, a.qtype, b.qtype));
+        }
+        if a.qclass != b.qclass {
+            add("questions.qclass".into(), format!("question {} qclass {} vs {}", i, a.qclass, b.qclass));
+        }
+        if a.unicast != b.unicast {
+            add("questions.unicast".into(), format!("question {} unicast {} vs {}", i, a.unicast, b.unicast));
+        }
+    }
+    for (sname, ea, ga) in [
+        ("answers", &exp.answers, &got.answers),
+        ("authority", &exp.authority, &got.authority),
+        ("additional", &exp.additional, &got.additional),
+    ] {
+        if ea.len() != ga.len() {
+            add(format!("{}.count", sname), format!("{} vs {} records in {}", ea.len(), ga.len(), sname));
+        }
+        for (i, (a, b)) in ea.iter().zip(ga.iter()).enumerate() {
+            let mn = schema::schema(a.rdata.code()).map(|s| s.mnemonic.to_string()).unwrap_or_else(|| format!("TYPE{}", a.rdata.code()));
+            if a.name != b.name {
+                add(format!("{}.owner", sname), format!("{}[{}] owner {:?} vs {:?}", sname, i, a.name, b.name));
+            }
+            if a.class != b.class {
+                add(format!("{}.class", sname), format!("{}[{}] class {} vs {}", sname, i, a.class, b.class));
+            }
+            if a.cache_flush != b.cache_flush {
+                add(format!("{}.cache_flush", sname), format!("{}[{}] cache_flush {} vs {}", sname, i, a.cache_flush, b.cache_flush));
+            }
+            if a.ttl != b.ttl {
+                add(format!("{}.ttl", sname), format!("{}[{}] ttl {} vs {}", sname, i, a.ttl, b.ttl));
+            }
+            if a.rdata != b.rdata {
+                let which = match (&a.rdata, &b.rdata) {
+                    (RefRData::Typed { code: c1, vals: v1 }, RefRData::Typed { code: c2, vals: v2 }) if c1 == c2 && v1.len() == v2.len() => {
+                        let sch = schema::schema(*c1).unwrap();
+                        let names: Vec<&str> = sch.fields.iter().filter(|(_, k)| *k != schema::Kind::GwType).map(|f| f.0).collect();
+                        let d: Vec<&str> = v1.iter().zip(v2.iter()).enumerate().filter(|(_, (x, y))| x != y).map(|(j, _)| names[j]).collect();
+                        format!("field-{}", d.join("+"))
+                    }
+                    _ => "shape".to_string(),
+                };
+                add(
+                    format!("{}.rdata.{}.{}", sname, mn, which),
+                    format!("{}[{}] rdata {} vs {}", sname, i, crate::engine::truncate(&format!("{:?}", a.rdata), 300), crate::engine::truncate(&format!("{:?}", b.rdata), 300)),
+                );
+            }
+        }
+    }
+    out
+}
